@@ -237,6 +237,39 @@ def _split_parallel(fn):
       i += 1
 
 
+def _bound_partial(e) -> bool:
+  """functools.partial(<name>, <names / constants>...): nothing is evaluated
+  but names."""
+  if not (isinstance(e, ast.Call) and isinstance(e.func, ast.Attribute) and
+          e.func.attr == 'partial' and isinstance(e.func.value, ast.Name) and
+          e.func.value.id == 'functools' and e.args):
+    return False
+  vals = list(e.args) + [k.value for k in e.keywords]
+  return all(k.arg is not None for k in e.keywords) and all(
+      isinstance(v, (ast.Name, ast.Constant)) for v in vals)
+
+
+def _is_callee(name_node, stmt) -> bool:
+  return any(isinstance(c, ast.Call) and c.func is name_node
+             for c in ast.walk(stmt))
+
+
+class _FoldPartialCalls(ast.NodeTransformer):
+  """`functools.partial(f, a, k=v)(b)` -> `f(a, b, k=v)`."""
+
+  def visit_Call(self, node):
+    self.generic_visit(node)
+    f = node.func
+    if _bound_partial(f) and not any(
+        isinstance(a, ast.Starred) for a in node.args) and not (
+            {k.arg for k in f.keywords} & {k.arg for k in node.keywords}) and all(
+                k.arg is not None for k in node.keywords):
+      return ast.copy_location(ast.Call(
+          func=f.args[0], args=list(f.args[1:]) + list(node.args),
+          keywords=list(f.keywords) + list(node.keywords)), node)
+    return node
+
+
 class _FlattenStarred(ast.NodeTransformer):
   """`f(a, *(b, c))` -> `f(a, b, c)`; likewise in tuple / list displays."""
 
@@ -352,6 +385,12 @@ def eliminate_temps(fn, protect: Set[str] = frozenset()) -> int:
         call = _has_call(e)
         heap = any(isinstance(z, (ast.Attribute, ast.Subscript))
                    for z in ast.walk(e))
+        if _bound_partial(e) and all(
+            _is_callee(y, rest[k]) for k, y in uses_rest):
+          # `c = functools.partial(f, a); ... c()`: building the partial has
+          # no effect and the object is only ever called - each call reads
+          # as f(a) (folded below)
+          call = heap = False
         if call and (len(uses_rest) != 1 or in_comp):
           continue
         if call or heap:
@@ -405,6 +444,7 @@ def eliminate_temps(fn, protect: Set[str] = frozenset()) -> int:
         x.orelse[0], ast.Pass):
       x.orelse = []
   flatten_starred_literals(fn)
+  _FoldPartialCalls().visit(fn)
   ast.fix_missing_locations(fn)
   return removed
 
